@@ -1,4 +1,5 @@
 """The individual extractors. Each imports the live objects from $VERIF_REPO (already on sys.path)."""
+import os
 from extract import emitter, lean_str, lean_str_list, lean_bytes
 
 
@@ -327,4 +328,36 @@ def jwe(repo):
     lines.append("def zipRegistry : List String := " + lean_str_list(sorted(JsonWebEncryption.ZIP_REGISTRY)))
     lines.append("")
     lines.append("end Generated.Jwe")
+    return "\n".join(lines) + "\n"
+
+
+@emitter("OAuth1.lean")
+def oauth1(repo):
+    """OAuth 1 provider constants: timestamp window, default signature methods, the nonce memory of the Flask cache hooks and of the Django integration."""
+    import inspect, re
+    from authlib.oauth1.rfc5849.base_server import BaseServer
+    from authlib.integrations.flask_oauth1 import cache as fcache
+    lines = ["/- GENERATED by harness/extract_data.py from authlib/oauth1/rfc5849/base_server.py, integrations/flask_oauth1/cache.py, integrations/django_oauth1 — do not edit -/",
+             "namespace Generated.OAuth1", ""]
+    lines.append("/-- `BaseServer.EXPIRY_TIME`: timestamps older than this many seconds are refused (0 = falsy: no check) -/")
+    lines.append(f"def expiryTime : Nat := {int(BaseServer.EXPIRY_TIME or 0)}")
+    lines.append("def defaultSignatureMethods : List String := " + lean_str_list(list(BaseServer.SUPPORTED_SIGNATURE_METHODS)))
+    lines.append("def knownSignatureMethods : List String := " + lean_str_list(sorted(BaseServer.SIGNATURE_METHODS)))
+    def default_of(fn, name):
+        p = inspect.signature(fn).parameters.get(name)
+        return int(p.default) if p is not None and isinstance(p.default, int) else 0
+    lines.append("/-- default `expires` of `create_exists_nonce_func` / `register_nonce_hooks` (flask_oauth1/cache.py) -/")
+    lines.append(f"def flaskNonceExpires : Nat := {default_of(fcache.create_exists_nonce_func, 'expires')}")
+    lines.append(f"def flaskRegisterNonceExpires : Nat := {default_of(fcache.register_nonce_hooks, 'expires')}")
+    def dj(path):
+        try:
+            m = re.search(r'get\(\s*"nonce_expires_in"\s*,\s*(\d+)\s*\)', open(os.path.join(repo, path)).read())
+            return int(m.group(1)) if m else 0
+        except OSError:
+            return 0
+    lines.append("/-- default of the `nonce_expires_in` setting in django_oauth1 (authorization server, resource protector) -/")
+    lines.append(f"def djangoServerNonceExpires : Nat := {dj('authlib/integrations/django_oauth1/authorization_server.py')}")
+    lines.append(f"def djangoProtectorNonceExpires : Nat := {dj('authlib/integrations/django_oauth1/resource_protector.py')}")
+    lines.append("")
+    lines.append("end Generated.OAuth1")
     return "\n".join(lines) + "\n"
